@@ -176,6 +176,7 @@ func runC09(p *core.Program, r *core.Report) {
 		r.Anchor("R5", "(*printer).Frag scanning closure")
 	} else {
 		c09R5(p, r, prn)
+		c09R8(r, prn)
 	}
 	c09R7(p, r)
 }
